@@ -104,7 +104,13 @@ def history_case(args) -> dict:
                         text = "\n".join(ln + mark if ln.strip() and not ln.strip().startswith(("#", "//")) else ln for ln in old.split("\n"))
                 elif lang == "":
                     old = (proj / p).read_text()
-                    text = (old.split("\n")[0] + "\n" + py_file(rng, 900 + nextver, dup)) if old.startswith("#!") else old + f"line {nextver}\n"
+                    if rng.random() < 0.6:
+                        # an extension-less file is a script of whatever its first line says - now: a python script becomes a shell
+                        # script with the same body, anything else becomes a python script
+                        first, _, rest = old.partition("\n")
+                        text = ("#!/bin/sh\n" + rest) if (first.startswith("#!") and "python" in first) else ("#!/usr/bin/env python3\n" + py_file(rng, 900 + nextver, dup))
+                    else:
+                        text = (old.split("\n")[0] + "\n" + py_file(rng, 900 + nextver, dup)) if old.startswith("#!") else old + f"line {nextver}\n"
                 elif lang == "py":
                     text = py_file(rng, 900 + nextver, dup)
                 elif lang == "ts":
@@ -146,6 +152,18 @@ def history_case(args) -> dict:
             fresh_tables([a, b])
             fresh_tables([b])
             out["leak"] = {"a": pid[a], "b": pid[b], "va": version[a], "vb": version[b], "impl": leak, "fresh_alone": alone}
+        # a script without extension is whatever its first line says *now*: shell -> python -> shell on the long-lived object,
+        # each state compared with a fresh object
+        tool = proj / "bin_tool"
+        body = py_file(rng, 990, None)
+        out["shebang"] = []
+        for first in ("#!/bin/sh", "#!/usr/bin/env python3", "#!/bin/bash", "#!/usr/bin/python"):
+            tool.write_text(first + "\n" + body)
+            used = sorted(tok(v) for v in linter.lint(tool))
+            core._reset_singletons()
+            fresh_one = sorted(tok(v) for v in Linter(project_root=proj).lint(tool))
+            out["shebang"].append({"first": first, "used": used, "fresh": fresh_one})
+        tool.unlink()
     except Exception as exc:  # noqa: BLE001
         import traceback
         out["errors"].append(f"{type(exc).__name__}: {exc} {traceback.format_exc()[-500:]}")
@@ -318,6 +336,14 @@ def run(tier: str, seed: int, st: core.ProofStatus) -> core.Result:
             if problems:
                 res.disagreements.append(core.Disagreement(case=case, impl=s["long_lived"][:10], model=mo[:10], spec=s["fresh"][:10], property_fails=fails,
                                                            note=" | ".join(problems)[:2000]))
+                break
+        for sb in h.get("shebang", []):
+            res.evaluations += 1
+            res.bump("shebang probe", sb["first"])
+            if sb["used"] != sb["fresh"]:
+                res.disagreements.append(core.Disagreement(case={"kind": "extension-less script rewritten", "first_line": sb["first"], "history": [x["first"] for x in h["shebang"]]},
+                                                           impl=sb["used"][:6], model=None, spec=sb["fresh"][:6], property_fails=True,
+                                                           note=f"a script without extension whose first line is now {sb['first']!r}: the used object reports {len(sb['used'])} findings, a fresh one {len(sb['fresh'])}"))
                 break
         if "leak" in h:
             lk = h["leak"]
